@@ -570,3 +570,38 @@ pub fn abstract_of_ctl() -> [(Res, Cell); 2] {
         (CTL_B, Cell { ty: 5, dynid: 0 }),
     ]
 }
+
+/// A whole dispatcher used as a (thread-local) system of another dispatcher, driven through
+/// the `RunNow` TRAIT methods of `Dispatcher` (not the inherent ones).
+pub struct HNest {
+    pub gid: usize,
+    pub inner_b: usize,
+    pub d: Dispatcher<'static, 'static>,
+    pub ctx: Arc<Ctx>,
+}
+
+impl<'a> shred::RunNow<'a> for HNest {
+    fn run_now(&mut self, world: &'a World) {
+        let ctx = self.ctx.clone();
+        ctx.note_addr(self.gid, self as *const _ as usize);
+        let logx = ctx.log_exec.load(Ordering::Relaxed);
+        if logx {
+            ctx.ev(json!({"ev":"fetch","s":self.gid,"th":ctx.thread()}));
+            ctx.ev(json!({"ev":"begin","d":self.inner_b,"mode":"disp","th":ctx.thread()}));
+        }
+        shred::RunNow::run_now(&mut self.d, world);
+        if logx {
+            ctx.ev(json!({"ev":"end","d":self.inner_b,"res":"ok"}));
+            ctx.ev(json!({"ev":"finish","s":self.gid,"nv":[],"seen":[]}));
+        }
+    }
+
+    fn setup(&mut self, world: &mut World) {
+        shred::RunNow::setup(&mut self.d, world);
+    }
+
+    fn dispose(self: Box<Self>, world: &mut World) {
+        let d: Box<Dispatcher<'static, 'static>> = Box::new(self.d);
+        shred::RunNow::dispose(d, world);
+    }
+}
